@@ -646,6 +646,7 @@ def c20(proj, rep, tier):
     rep.floor('T3 thresholds checked against the precision class (C20)', n, 3)
     n = gellmann.g5(proj, rep)
     rep.floor('G5 (basis, complement) return pairs', n, 7)
+    round3b.evs1(proj, rep, ['numqi.matrix_space'] if tier == 'quick' else None)
     nn = round3b.td1_dt14_drop1_rd2(proj, rep, ['DROP1'])
     rep.floor('DROP1 accumulating loops of numqi.matrix_space', nn['DROP1'], 10)
     n = kdefects.nz1(proj, rep, ['numqi.matrix_space._misc', 'numqi.matrix_space._numerical_range', 'numqi.matrix_space._hierarchy'] if tier == 'quick' else sorted(proj.modules))
@@ -776,7 +777,7 @@ MC3_SCOPE = {
     'C01': MANIFOLD, 'C02': MANIFOLD, 'C03': ['numqi.sim', 'numqi.gate._internal'], 'C04': ['numqi.sim', 'numqi._torch_op', 'numqi.qec', 'numqi.query', 'numqi.optimize'],
     'C05': ['numqi.entangle', 'numqi.utils'], 'C06': ['numqi.entangle', 'numqi.gellmann'], 'C07': ['numqi.sim.clifford', 'numqi.gate._pauli'],
     'C08': ['numqi.gate._pauli', 'numqi.random._spf2'], 'C09': ['numqi.group.spf2', 'numqi.random._spf2'], 'C10': ['numqi'],
-    'C11': ['numqi.sim.state', 'numqi.sim.circuit'], 'C12': ['numqi.channel', 'numqi.utils'], 'C13': ['numqi.entangle.eof', 'numqi.entangle.measure'],
+    'C11': ['numqi.sim.state', 'numqi.sim.circuit'], 'C12': ['numqi.channel', 'numqi.utils'], 'C13': ['numqi.entangle.eof', 'numqi.entangle.measure', 'numqi._torch_op'],
     'C14': ['numqi.group._symmetric', 'numqi.group._internal'], 'C15': ['numqi.group._lie', 'numqi.matrix_space._clebsch_gordan'], 'C16': ['numqi.gellmann'],
     'C17': ['numqi.dicke', 'numqi.utils'], 'C18': ['numqi.state', 'numqi.entangle.upb', 'numqi.dicke'], 'C19': ['numqi.qec'], 'C20': ['numqi.matrix_space'],
 }
@@ -793,6 +794,7 @@ def with_mc3(pid, f):
         # PU1 over the modules of the property (package-wide in the thorough tier); the properties that already run it keep their own floors
         scope = [q for q in sorted(proj.modules) if any(q == x or q.startswith(x + '.') for x in MC3_SCOPE[pid])] if tier == 'quick' else sorted(proj.modules)
         round3b.dtf1(proj, rep, MC3_SCOPE[pid] if tier == 'quick' else None)
+        round3b.cast1(proj, rep, MC3_SCOPE[pid] if tier == 'quick' else None)
         nev = round3b.evh1(proj, rep, MC3_SCOPE[pid] if tier == 'quick' else None)
         if tier != 'quick':
             rep.floor('EVH1 transposes of eigh eigenvector matrices in the package', nev, 8)
